@@ -36,6 +36,10 @@ REQUIRED = ["KV.C04.header_roundtrip", "KV.C04.magic_distinct", "KV.C04.recogniz
             "KV.C04.array_table_in_block", "KV.C04.quant_exact", "KV.C04.QuantExample.quant_lossy_when_count_exceeds_bins",
             "KV.C04.sanity_model_eq_probe", "KV.C04.total_header_table", "KV.C04.fixed_layout"]
 
+REQUIRED_TRIE = ["KV.C03Trie.trie_refines", "KV.C03Trie.trie_prob", "KV.C03Trie.trie_refines_of_check",
+                 "KV.C03Trie.quant_structural", "KV.C03Trie.ExamplePlain.represents", "KV.C03Trie.ExampleQuantArray.represents",
+                 "KV.C03Trie.ExampleBuilt.built_represents", "KV.C03Trie.ExampleBuilt.built_eq_real_file"]
+
 TYPE_NAMES = ["probing", "rest-probing", "trie", "quant-trie", "array-trie", "quant-array-trie"]
 
 
@@ -362,7 +366,7 @@ def header_mutation_stream(ctx, pair, d, sample_file):
         data = bytearray(f.read())
     muts = []
     rng = ctx.rng
-    for i in range(24):
+    for i in range(30):
         b = bytearray(data)
         kind = i % 6
         if kind == 0:
@@ -375,7 +379,7 @@ def header_mutation_stream(ctx, pair, d, sample_file):
         elif kind == 3:
             b[49] = ord(rng.choice("4679"))
         elif kind == 4:
-            b[92:96] = struct.pack("<f", rng.choice([0.5, 0.999, -2.0, 1.0, float("nan")]))
+            b[92:96] = struct.pack("<f", [float("nan"), 0.999, -2.0, 1.0, 0.5][(i // 6) % 5])
         else:
             b[88] = rng.choice([0, 1, 7, 200])       # order byte: counts run past the end of small files
             b = b[:rng.choice([112, 136, len(b)])]
@@ -412,7 +416,15 @@ def run(ctx):
         problems.append("the tree does not build: " + lg[-2000:])
         flow.report_obligation_failures(ctx, problems, False)
         return
-    problems, consts = flow.proof_phase(ctx, "C04", probe="probe_C04.cc", probe_flags=flags, required=REQUIRED, drivers=["drv_C04"])
+    problems, consts = flow.proof_phase(ctx, "C04", probe="probe_C04.cc", probe_flags=flags, required=REQUIRED,
+                                        targets=["Properties.C04", "Properties.C03Trie"], drivers=["drv_C04"])
+    # the trie clause of C03 (Properties/C03Trie.lean) is owned by this builder: audited here as well
+    if not any("lake build failed" in p_ for p_ in problems):
+        o1, d1, t1 = ctx.cov["obligations"], ctx.cov["discharged"], list(ctx.cov.get("theorems", []))
+        problems += lean.audit(ctx, "C03Trie", REQUIRED_TRIE)
+        ctx.cov["obligations"] += o1
+        ctx.cov["discharged"] += d1
+        ctx.cov["theorems"] = t1 + ctx.cov.get("theorems", [])
     ok, hexe, lg = repo.harness("c04.cc", libs=True, config="asan")
     if not ok:
         problems.append(lg)
